@@ -377,7 +377,17 @@ class CallGraph:
                 self.stats["call_sites"] += 1
                 self.stats[status] += 1
                 out.append((c, callees, status))
-            # a nested def is "called" by its parent when referenced; keep explicit edges only
+            # property getters: attribute loads on a typed receiver whose attribute is a @property
+            if not isinstance(f.node, ast.Lambda):
+                for n in walk_no_nested(f.node):
+                    if isinstance(n, ast.Attribute) and isinstance(n.ctx, ast.Load):
+                        for t in self.r.expr_types(f, n.value):
+                            c = t[5:] if t.startswith("type:") else t
+                            pm = model.lookup_method(c, n.attr) if c in model.classes else None
+                            if pm is not None and pm.is_property:
+                                fake = ast.Call(func=n, args=[], keywords=[])
+                                ast.copy_location(fake, n)
+                                out.append((fake, model.overrides(c, n.attr) if fanout else [pm], "resolved"))
             self.edges[f.qualname] = out
 
     def callees(self, qn: str) -> Set[str]:
@@ -400,8 +410,9 @@ class CallGraph:
                     st.append(k)
         return seen
 
-    def sccs(self, nodes: Optional[Set[str]] = None) -> List[List[str]]:
+    def sccs(self, nodes: Optional[Set[str]] = None, skip_edges: Optional[Set[Tuple[str, str]]] = None) -> List[List[str]]:
         nodes = set(self.edges) if nodes is None else nodes
+        skip_edges = skip_edges or set()
         index: Dict[str, int] = {}
         low: Dict[str, int] = {}
         onst: Set[str] = set()
@@ -418,7 +429,7 @@ class CallGraph:
             st.append(v)
             onst.add(v)
             for w in self.callees(v):
-                if w not in nodes:
+                if w not in nodes or (v, w) in skip_edges:
                     continue
                 if w not in index:
                     strong(w)
